@@ -40,7 +40,7 @@ def check(patch, pid, tier="quick"):
     if r.returncode:
         print("PATCH DOES NOT APPLY:", r.stdout); return 2
     try:
-        r = sh(f"./vf check {pid} --tier {tier}", cwd="/verif")
+        r = sh(f"./vf check {pid} --tier {tier}", cwd="/verif", env=dict(os.environ, VERIF_EVIDENCE_DIR="/tmp/verif_mutant_evidence"))
         lines = [l for l in r.stdout.splitlines() if l.startswith(("VIOLATION", "KNOWN", "INCONCLUSIVE", "[", "  C"))]
         print("\n".join(lines[:12]))
         print("exit", r.returncode)
